@@ -835,6 +835,45 @@ pub fn run() {
                     };
                     out.push(a);
                 }
+                //   relog <session alias>: the session as every node but the one that handled the login holds it, and as
+                //   that node holds it after a restart - the `Set` request encoded as a raft log record and decoded again
+                //   (`StoreUtils::entry_to_record` / `log_record_to_entry`), then applied to the cache
+                Some("relog") if ws.len() >= 2 => {
+                    let tok = tokens.iter().find(|(a, _)| a == ws[1]).map(|(_, t)| t.clone()).unwrap_or(ws[1].to_string());
+                    let key = CacheKey { cache_type: CacheType::UserSession, key: Arc::new(tok) };
+                    let a = match app.direct_cache_manager.send(CacheManagerRaftReq::Get(key.clone())).await {
+                        Ok(Ok(rnacos::cache::actor_model::CacheManagerRaftResult::Value(v))) => {
+                            let mut p = CacheSetParam::new(key, v);
+                            p.ttl = 36000;
+                            p.now = rnacos::common::datetime_utils::now_second_i32();
+                            let e = async_raft_ext::raft::Entry {
+                                term: 1,
+                                index: 1,
+                                payload: async_raft_ext::raft::EntryPayload::Normal(async_raft_ext::raft::EntryNormal {
+                                    data: ClientRequest::CacheReq { req: CacheManagerRaftReq::Set(p) },
+                                }),
+                            };
+                            match rnacos::raft::filestore::StoreUtils::entry_to_record(&e)
+                                .and_then(rnacos::raft::filestore::StoreUtils::log_record_to_entry)
+                            {
+                                Ok(async_raft_ext::raft::Entry {
+                                    payload:
+                                        async_raft_ext::raft::EntryPayload::Normal(async_raft_ext::raft::EntryNormal {
+                                            data: ClientRequest::CacheReq { req },
+                                        }),
+                                    ..
+                                }) => match app.direct_cache_manager.send(req).await {
+                                    Ok(Ok(_)) => "ok".to_string(),
+                                    _ => "error apply".to_string(),
+                                },
+                                Ok(_) => "error kind".to_string(),
+                                Err(e) => format!("error codec {}", e.to_string().chars().take(60).collect::<String>()),
+                            }
+                        }
+                        _ => "error nosession".to_string(),
+                    };
+                    out.push(a);
+                }
                 // the archive upload: import <v1|v2> header=<spelling|omit> form=<spelling|omit> session=<s>
                 // (the namespace travels in the `tenant` header; the multipart body has a `tenant` text field too)
                 Some("import") if ws.len() >= 2 => {
